@@ -95,7 +95,7 @@ fn main() {
         std::process::exit(h.join().unwrap_or(4));
     }
     let mut sum = Summary::default();
-    sum.rule = "case = (parser, input) where input is a valid seed document, one of its single-edit mutants (deletion, truncation, byte flip, insertion of a byte), a splice of a format-specific dictionary token (delimiters, escapes, unusual IRIs incl. IPv6 hosts, bad labels/tags, XML/JSON constructs), or invalid UTF-8; plus deep nesting (collections, property lists, quoted triples, XML elements, JSON arrays) in a subprocess on a 2 MiB thread; \
+    sum.rule = "case = (parser, input) where input is a valid seed document, one of its single-edit mutants (deletion, truncation, byte flip, insertion of a byte), a splice of a format-specific dictionary token (delimiters, escapes, unusual IRIs incl. IPv6 hosts, bad labels/tags, XML/JSON constructs), or invalid UTF-8; plus a directed stream of short inputs (the empty input, every 1-byte input, 2-byte inputs over 28 interesting bytes -- all 65 536 in the thorough tier --, prefixes and repetitions of the UTF-8 byte-order mark, BOM-prefixed valid documents and their truncations) through every parser; plus deep nesting (collections, property lists, quoted triples, XML elements, JSON arrays) in a subprocess on a 2 MiB thread; \
 non-trivial = the parser yielded at least one statement from a mutated input (so term validity is actually exercised) or rejected a mutant of a valid document; distinct = distinct (parser, input bytes)".into();
     std::panic::set_hook(Box::new(|info| { LAST_PANIC.with(|l| *l.borrow_mut() = format!("{info}").replace('\n', " ")); }));
     let base = Rng::new(a.seed);
@@ -133,6 +133,39 @@ non-trivial = the parser yielded at least one statement from a mutated input (so
         }
         if a.only.is_some() { println!("CASE {idx}: {f:?} kind {kind} input {shown:?}"); }
         sum.evaluations += 1;
+    }
+    // ---------- short inputs and byte-order marks (directed stream; every parser) ----------
+    // every 1-byte input; 2-byte inputs over a set of interesting bytes (all 65 536 in the thorough tier);
+    // prefixes of a UTF-8 byte-order mark; BOM-prefixed valid documents and all their short truncations
+    if a.only.is_none() {
+        let mut inputs: Vec<Vec<u8>> = vec![vec![]];
+        for b in 0..=255u8 { inputs.push(vec![b]); }
+        let interesting: Vec<u8> = if a.n >= 20000 { (0..=255u8).collect() } else { vec![0x00, 0x09, 0x0A, 0x0D, 0x20, b'"', b'#', b'<', b'>', b'@', b'[', b'{', b'_', b':', b'a', b'1', b'\\', 0x7F, 0x80, 0xBB, 0xBF, 0xC2, 0xE0, 0xEF, 0xF0, 0xF4, 0xFE, 0xFF] };
+        for x in &interesting { for y in &interesting { inputs.push(vec![*x, *y]); } }
+        for tail in [&b""[..], b"\xBF", b"\xBB", b"\xBB\xBF", b"\xBB\xBF\xEF", b"\xBB\xBF\xEF\xBB", b"\xBB\xBF\xEF\xBB\xBF", b"\xBF\xBB", b"\xBB\xBF ", b"\xBB\xBF\n", b"\xBB\xBF{}", b"\xBB\xBF[]", b"\xBB\xBF<", b"\xBB\xBF#"] { let mut v = vec![0xEFu8]; v.extend_from_slice(tail); inputs.push(v); }
+        for (k, data) in inputs.iter().enumerate() { for f in FMTS {
+            let res = catch_unwind(AssertUnwindSafe(|| run_parser(f, data)));
+            sum.evaluations += 1; sum.bump(&format!("short:{f:?}"));
+            match res {
+                Err(_) => { let msg = LAST_PANIC.with(|l| l.borrow().clone()); let msg: String = msg.chars().take(200).collect();
+                    sum.oracle_failures.push((format!("short-{k}"), format!("parser {f:?} PANICKED ({profile} build) on the {}-byte input {data:02x?}: {msg}", data.len()))); }
+                Ok((_, bad)) => { if !bad.is_empty() { sum.oracle_failures.push((format!("short-{k}"), format!("parser {f:?} ({profile} build) yielded an invalid term: {}; input bytes {data:02x?}", bad[0]))); } if k % 97 == 0 { sum.distinct_nontrivial += 1; } }
+            }
+        } }
+        for f in FMTS {
+            let mut doc = vec![0xEFu8, 0xBB, 0xBF]; doc.extend_from_slice(seeds(f)[0].as_bytes());
+            let mut cuts: Vec<usize> = (0..doc.len().min(48)).collect(); let mut c = 48; while c < doc.len() { cuts.push(c); c += 5; } cuts.push(doc.len());
+            for cut in cuts {
+                let data = &doc[..cut];
+                let res = catch_unwind(AssertUnwindSafe(|| run_parser(f, data)));
+                sum.evaluations += 1; sum.bump(&format!("bom-truncation:{f:?}"));
+                match res {
+                    Err(_) => { let msg = LAST_PANIC.with(|l| l.borrow().clone()); let msg: String = msg.chars().take(200).collect();
+                        sum.oracle_failures.push((format!("bom-{f:?}-{cut}"), format!("parser {f:?} PANICKED ({profile} build) on a BOM-prefixed document truncated to {cut} bytes: {msg}"))); }
+                    Ok((n, bad)) => { if !bad.is_empty() { sum.oracle_failures.push((format!("bom-{f:?}-{cut}"), format!("parser {f:?} ({profile} build) yielded an invalid term: {}; BOM-prefixed document truncated to {cut} bytes", bad[0]))); } if n > 0 { sum.distinct_nontrivial += 1; } }
+                }
+            }
+        }
     }
     // ---------- validators vs the regenerated regexes (evaluated inside Coq) ----------
     // strings over the boundary code points of every class (each range end and its neighbours)
